@@ -59,6 +59,15 @@ func Lockstep(op int, mode int) {
 // the program counter) from one common arbitrary native-mode state and compares after the second:
 // state that one interpreter keeps between steps outside the fields of cpuenv.Pre shows here.
 func Lockstep2(op1 int, op2 int, mode int) {
+	lockSeq([]int{op1, op2}, mode)
+}
+
+// Lockstep3: three consecutive Steps of both, everything compared after the third.
+func Lockstep3(op1 int, op2 int, op3 int, mode int) {
+	lockSeq([]int{op1, op2, op3}, mode)
+}
+
+func lockSeq(ops []int, mode int) {
 	m, x := uint8(mode>>1&1), uint8(mode&1)
 	pre := cpuenv.ArbitraryPre(m, x, 0)
 	pre.Interrupt = pre.Interrupt & 1
@@ -66,26 +75,29 @@ func Lockstep2(op1 int, op2 int, mode int) {
 	opAddr := uint32(pre.RK)<<16 | uint32(pre.PC)
 	vp.FillBytes("mem", cpuenv.MainMem)
 	vp.FillBytes("mem", cpuenv.AltMem)
-	cpuenv.MainMem[opAddr] = uint8(op1)
-	cpuenv.AltMem[opAddr] = uint8(op1)
+	cpuenv.MainMem[opAddr] = uint8(ops[0])
+	cpuenv.AltMem[opAddr] = uint8(ops[0])
 	a, b := cpuenv.Main, cpuenv.Alt
 	pre.ToMain(a)
 	pre.ToAlt(b)
 	var c1, c2 int
 	var s1, s2 bool
+	vp.Note("multi-instruction jobs: each later opcode is stored under the program counter the instruction before left, in both memories alike; both interpreters assumed to agree on that program counter and not to be stopped")
+	for k := 1; k < len(ops); k++ {
+		p1 := vp.Try(func() { c1, s1 = a.Step() })
+		p2 := vp.Try(func() { c2, s2 = b.Step() })
+		if p1 || p2 {
+			vp.Reach("earlier-step-failed")
+			return
+		}
+		pcA := uint32(a.RK)<<16 | uint32(a.PC)
+		pcB := uint32(b.RK)<<16 | uint32(b.PC)
+		vp.Assume(pcA == pcB && !s1 && !s2)
+		cpuenv.MainMem[pcA] = uint8(ops[k])
+		cpuenv.AltMem[pcB] = uint8(ops[k])
+	}
 	p1 := vp.Try(func() { c1, s1 = a.Step() })
 	p2 := vp.Try(func() { c2, s2 = b.Step() })
-	if p1 || p2 {
-		vp.Reach("first-step-failed")
-		return
-	}
-	pcA := uint32(a.RK)<<16 | uint32(a.PC)
-	pcB := uint32(b.RK)<<16 | uint32(b.PC)
-	vp.Assume(pcA == pcB && !s1 && !s2)
-	cpuenv.MainMem[pcA] = uint8(op2)
-	cpuenv.AltMem[pcB] = uint8(op2)
-	p1 = vp.Try(func() { c1, s1 = a.Step() })
-	p2 = vp.Try(func() { c2, s2 = b.Step() })
 	vp.Assert("same-failure-status", p1 == p2)
 	if p1 || p2 {
 		vp.Reach("failed")
